@@ -354,9 +354,11 @@ func c08Run(c c08Case) (log []string, rname string, problems []string) {
 			s.Handle("r", opts...)
 			s.AddListener("r", lis(0))
 		case "two":
+			// two listeners that are closures of one function literal, registered from one call site
 			s.Handle("r", opts...)
-			s.AddListener("r", lis(0))
-			s.AddListener("r", lis(1))
+			for i := 0; i < 2; i++ {
+				s.AddListener("r", lis(i))
+			}
 		case "nested":
 			s.Handle("r", opts...)
 			l0 := lis(0)
